@@ -44,6 +44,13 @@ def gen(ctx):
     yield dict(kind="ami", ca=[[1, 10], [10, 1], [1, 0], [0, 1]], d=1, dtype="int64")          # D5: multi-character states
     yield dict(kind="ami", ca=[[0, 1, 1], [1, 1, 0], [1, 0, 1], [0, 0, 1], [1, 1, 1], [0, 1, 0]], d=4, dtype="int64")   # D6: T=6 > N=3
     yield dict(kind="ami", ca=[[0, 1, 1, 0, 1, 0], [1, 1, 0, 0, 1, 1], [1, 0, 1, 1, 1, 0]], d=4, dtype="int64")          # D6: T=3 < N=6
+    # wide automata whose cells are far from alike: the average is over ALL cells, each with weight 1/N
+    for N in ([130, 257] if ctx.tier == "quick" else [101, 130, 199, 257, 515, 1030]):
+        T = rng.randint(4, 8)
+        flat = rng.randint(40, N - 20)          # a run of constant cells, then varied ones
+        ca = [[(0 if j < flat else rng.randrange(3)) for j in range(N)] for _ in range(T)]
+        yield dict(kind="ace", ca=ca, dtype="int64")
+        yield dict(kind="ami", ca=ca, d=rng.randint(1, T - 1), dtype="int64")
     # states that differ only beyond the 53rd bit are different symbols
     for _ in range(ctx.n(30, 300)):
         T, N = rng.randint(3, 9), rng.randint(1, 4)
